@@ -66,6 +66,13 @@ pub fn run_write(out: &mut Out, seed: u64, tier: &str) {
         let mut mol = Molecule::from_atomic_symbols(&refs);
         mol.coordinates = m.points();
         let path = tmp_path("w");
+        // every other file is written over an existing, longer xyz file (as the command-line tool does with opt.xyz on a second
+        // run in the same directory): nothing of the old content may survive
+        if c % 2 == 1 {
+            let mut old = String::from("40\nprevious file\n");
+            for k in 0..40 { old += &format!("Xe {:11.6} {:11.6} {:11.6}\n", k as f64, -(k as f64), 0.5); }
+            std::fs::write(&path, old).unwrap();
+        }
         let ok = catch(|| mol.write_xyz_file(&path));
         let bytes = std::fs::read(&path).unwrap_or_default();
         let _ = std::fs::remove_file(&path);
